@@ -828,14 +828,17 @@ func runC13(c *core.Ctx) error {
 // c13Reset: Reset makes a builder new.  For every container type of every compiled type system, at both levels: a first
 // history (complete, cut off anywhere, or ending in a refused call), Reset, then a legal history for another inhabitant:
 // on both engines every call of the second history succeeds and the node built is the second inhabitant - nothing of
-// the first history shows.
+// the first history shows.  The whole history (`<first> R <second>`, route `ops`) is also run on the typed-assembler machine
+// of its level (`TAsm.runC` / `RAsm.runC`: `typed_reset_is_init`, `typed_reset_history_result` and their representation
+// twins are theorems about exactly this), once per engine: every answer of the first history too must be the model's.
 func c13Reset(c *core.Ctx, compiled []*core.GenTS, skip func(*core.GenTS) bool, cfg core.SchemaCfg, report func(string, core.Replay)) error {
 	type rcase struct {
 		g             *core.GenTS
 		t             *core.SType
 		lvl           string
+		ops           []core.AsmOp
 		payload, want string
-		n2            int
+		n1, n2        int
 		bind          string
 	}
 	var hs []rcase
@@ -874,10 +877,11 @@ func c13Reset(c *core.Ctx, compiled []*core.GenTS, skip func(*core.GenTS) bool, 
 				if err != nil {
 					continue
 				}
-				h := rcase{g: g, t: t, lvl: lvl, payload: core.OpsLine(ops1) + " RESET " + core.OpsLine(ops2), want: "built " + v2.Term(), n2: len(ops2)}
-				h.bind = core.GenObserve(bp, "reset-ops", h.payload, 0)
+				ops := append(append(append([]core.AsmOp{}, ops1...), core.AsmOp{Kind: "R"}), ops2...)
+				h := rcase{g: g, t: t, lvl: lvl, ops: ops, payload: core.OpsLine(ops), want: "built " + v2.Term(), n1: len(ops1), n2: len(ops2)}
+				h.bind = core.GenObserve(bp, "ops", h.payload, 0)
 				hs = append(hs, h)
-				reqs = append(reqs, core.GenRequest{Pkg: g.Index, Type: t.Name, Level: lvl, Route: "reset-ops", Payload: h.payload})
+				reqs = append(reqs, core.GenRequest{Pkg: g.Index, Type: t.Name, Level: lvl, Route: "ops", Payload: h.payload})
 			}
 		}
 	}
@@ -885,15 +889,50 @@ func c13Reset(c *core.Ctx, compiled []*core.GenTS, skip func(*core.GenTS) bool, 
 	if err != nil {
 		return err
 	}
+	var lines []string
+	var idx []int
 	for i, h := range hs {
-		caseID := fmt.Sprintf("c13 %s TYPE %s %s reset-ops 0 OPS %s", h.g.Tokens(), h.t.Name, h.lvl, h.payload)
+		caseID := fmt.Sprintf("c13 %s TYPE %s %s ops 0 OPS %s", h.g.Tokens(), h.t.Name, h.lvl, h.payload)
 		c.Count(caseID, true)
 		c.Dist("reset:" + h.lvl + ":" + h.t.K)
-		wantObs := "ops\t" + strings.TrimSpace(strings.Repeat("ok ", h.n2)) + " | " + h.want
+		// (O) the answers from the Reset on: `reset`, every call of the second history accepted, its node built
+		wantTail := "reset " + strings.TrimSpace(strings.Repeat("ok ", h.n2)) + " | " + h.want
 		for engine, obs := range map[string]string{"gen": answers[i], "bindnode": h.bind} {
-			if obs != wantObs {
-				report("C13/reset-"+engine+"-builder-not-as-new", core.Replay{Kind: "oracle", Case: caseID, Impl: obs, Expected: wantObs,
+			f := strings.SplitN(obs, "\t", 2)
+			tail := ""
+			if len(f) == 2 && f[0] == "ops" {
+				if parts := strings.SplitN(f[1], " | ", 2); len(parts) == 2 {
+					if toks := strings.Fields(parts[0]); len(toks) == h.n1+1+h.n2 {
+						tail = strings.Join(toks[h.n1:], " ") + " | " + parts[1]
+					}
+				}
+			}
+			if tail != wantTail {
+				report("C13/reset-"+engine+"-builder-not-as-new", core.Replay{Kind: "oracle", Case: caseID, Impl: obs, Expected: "… " + wantTail,
 					Detail: "after Reset a builder answers a legal history as a new builder does and builds exactly its node"})
+			}
+		}
+		if h.lvl == "type" && core.PlainType(h.t) || h.lvl == "repr" && core.PlainReprType(h.t) {
+			lines = append(lines, core.TasmLineLvl("bindnode", h.lvl, h.t, h.ops), core.TasmLineLvl("gen", h.lvl, h.t, h.ops))
+			idx = append(idx, i)
+		}
+	}
+	// (D) the whole history, first part included, on the machine of the level
+	model, err := core.RunDriver(lines)
+	if err != nil {
+		return err
+	}
+	for n, i := range idx {
+		h := hs[i]
+		c.Dist("reset-on-typed-assembler-model:" + h.lvl)
+		for e, eng := range []struct{ name, obs string }{{"bindnode", h.bind}, {"gen", answers[i]}} {
+			f := strings.SplitN(eng.obs, "\t", 2)
+			if f[0] != "ops" || len(f) != 2 {
+				continue // a panic outside the calls: reported above
+			}
+			if d := core.TasmCompare(f[1], model[2*n+e], eng.name == "bindnode" && h.lvl == "type"); d != "" {
+				report("C13/corr-typed-assembler", core.Replay{Kind: "correspondence", Case: lines[2*n+e], Impl: eng.obs, Model: model[2*n+e],
+					Detail: d + "; engine " + eng.name + "; history " + fmt.Sprintf("c13 %s TYPE %s %s ops 0 OPS %s", h.g.Tokens(), h.t.Name, h.lvl, h.payload)})
 			}
 		}
 	}
@@ -949,6 +988,36 @@ func c13Retry(c *core.Ctx, compiled []*core.GenTS, skip func(*core.GenTS) bool, 
 	answers, err := core.RunGen(reqs)
 	if err != nil {
 		return err
+	}
+	// (D) the representation-level machine (Model/ReprAssembler.lean; `repr_retry` is the theorem this section samples): every
+	// history, whatever the first call was answered, once per engine - accepted / refused per call and the node built
+	{
+		var lines []string
+		var idx []int
+		for i, h := range hs {
+			if core.PlainReprType(h.t) {
+				lines = append(lines, core.TasmLineLvl("bindnode", "repr", h.t, h.ops), core.TasmLineLvl("gen", "repr", h.t, h.ops))
+				idx = append(idx, i)
+			}
+		}
+		model, err := core.RunDriver(lines)
+		if err != nil {
+			return err
+		}
+		for n, i := range idx {
+			h := hs[i]
+			c.Dist("retry-on-repr-assembler-model")
+			for e, eng := range []struct{ name, obs string }{{"bindnode", h.bind}, {"gen", answers[i]}} {
+				f := strings.SplitN(eng.obs, "\t", 2)
+				if f[0] != "ops" || len(f) != 2 {
+					continue // a panic outside the calls: reported below
+				}
+				if d := core.TasmCompare(f[1], model[2*n+e], false); d != "" {
+					report("C13/corr-typed-assembler", core.Replay{Kind: "correspondence", Case: lines[2*n+e], Impl: eng.obs, Model: model[2*n+e],
+						Detail: d + "; engine " + eng.name + "; history " + fmt.Sprintf("c13 %s TYPE %s repr ops 0 OPS %s", h.g.Tokens(), h.t.Name, h.payload)})
+				}
+			}
+		}
 	}
 	split := func(obs string) (calls []string, final string, ok bool) {
 		f := strings.SplitN(obs, "\t", 2)
@@ -1038,7 +1107,9 @@ func c13Histories(c *core.Ctx, compiled []*core.GenTS, skip func(*core.GenTS) bo
 		payload  string
 		bind     string
 		plain    bool
-		corrOnly bool // no prescribed outcome: the history is run against the model only
+		corrOnly bool   // no prescribed outcome: the history is run against the model only
+		lvl      string // the builder's level
+		what     string // corrOnly: what the odd call is
 	}
 	var hs []hcase
 	var reqs []core.GenRequest
@@ -1049,11 +1120,51 @@ func c13Histories(c *core.Ctx, compiled []*core.GenTS, skip func(*core.GenTS) bo
 			continue
 		}
 		for _, t := range g.Types {
-			if t.K != "map" && t.K != "list" && t.K != "struct" {
+			container := t.K == "map" || t.K == "list" || t.K == "struct"
+			if !container && t.K != "union" {
 				continue
 			}
-			for k := 0; k < 3; k++ {
+			for k := 0; k < 7; k++ {
+				if k < 3 && !container {
+					continue // the value-directed histories: maps, lists, structs; the type-directed ones also unions
+				}
 				v := core.GenInhabitant(t, r, cfg, true)
+				if k >= 3 {
+					// type-directed histories (core.GenTypedHistory): the schema says which calls are refused - kinds the position cannot
+					// hold (also where it holds several), Finish while a field is missing, refused nodes, repeated representation keys -,
+					// at type level (k=3) and at representation level (k=4,5), with a first history and a Reset in front of some; k=6:
+					// a call the engines answer differently (pinned by the model of each engine only), the history ends there
+					lvl := "type"
+					if k == 4 || k == 5 || k == 6 && r.Bool() {
+						lvl = "repr"
+					}
+					if lvl == "repr" && g.Ambiguous() {
+						continue
+					}
+					h := hcase{g: g, t: t, lvl: lvl, plain: lvl == "type" && core.PlainType(t) || lvl == "repr" && core.PlainReprType(t)}
+					if k == 6 {
+						ops, what, ok := core.GenTypedHistoryOdd(t, lvl, v, r, cfg)
+						if !ok || what == "" || !h.plain {
+							continue
+						}
+						h.ops, h.corrOnly, h.what = ops, true, what
+					} else {
+						ops, ok := core.GenTypedHistory(t, lvl, v, r, cfg, core.TypedHistoryOpts{Inject: k != 5, Reset: r.Chance(1, 3)})
+						if !ok {
+							continue
+						}
+						h.ops, h.want = ops, "built "+v.Term()
+					}
+					h.payload = core.OpsLine(h.ops)
+					bp, err := binds.proto(g, t.Name, lvl)
+					if err != nil {
+						continue
+					}
+					h.bind = core.GenObserve(bp, "ops", h.payload, 0)
+					hs = append(hs, h)
+					reqs = append(reqs, core.GenRequest{Pkg: g.Index, Type: t.Name, Level: lvl, Route: "ops", Payload: h.payload})
+					continue
+				}
 				if k == 2 {
 					// a struct key that is no field (plain structs only): what happens is pinned by the typed-assembler model alone - the
 					// reflection binding accepts the name and refuses every value for it, generated code refuses the name - so the history is
@@ -1065,7 +1176,7 @@ func c13Histories(c *core.Ctx, compiled []*core.GenTS, skip func(*core.GenTS) bo
 					if ops == nil {
 						continue
 					}
-					h := hcase{g: g, t: t, ops: ops, payload: core.OpsLine(ops), plain: true, corrOnly: true}
+					h := hcase{g: g, t: t, lvl: "type", ops: ops, payload: core.OpsLine(ops), plain: true, corrOnly: true, what: "struct-unknown-field-name"}
 					bp, err := binds.proto(g, t.Name, "type")
 					if err != nil {
 						continue
@@ -1079,7 +1190,7 @@ func c13Histories(c *core.Ctx, compiled []*core.GenTS, skip func(*core.GenTS) bo
 				// positions: kinds the position cannot hold, and AssignNode of a container refused part of the way through
 				plain := core.PlainType(t)
 				ops := core.GenHistoryOpts(core.TypeInput(v), r, core.HistoryOpts{Inject: k == 0, WrongKindValues: k == 0 && plain, RefusedAssignNode: k == 0 && plain})
-				h := hcase{g: g, t: t, ops: ops, want: "built " + v.Term(), payload: core.OpsLine(ops), plain: plain}
+				h := hcase{g: g, t: t, lvl: "type", ops: ops, want: "built " + v.Term(), payload: core.OpsLine(ops), plain: plain}
 				bp, err := binds.proto(g, t.Name, "type")
 				if err != nil {
 					continue
@@ -1104,10 +1215,10 @@ func c13Histories(c *core.Ctx, compiled []*core.GenTS, skip func(*core.GenTS) bo
 		return o
 	}
 	for i, h := range hs {
-		caseID := fmt.Sprintf("c13 %s TYPE %s type ops 0 OPS %s", h.g.Tokens(), h.t.Name, h.payload)
+		caseID := fmt.Sprintf("c13 %s TYPE %s %s ops 0 OPS %s", h.g.Tokens(), h.t.Name, h.lvl, h.payload)
 		if h.corrOnly {
 			c.Count(caseID, true)
-			c.Dist("histories:struct-unknown-field-name")
+			c.Dist("histories:" + h.lvl + ":" + h.what)
 			continue
 		}
 		injected := 0
@@ -1115,9 +1226,12 @@ func c13Histories(c *core.Ctx, compiled []*core.GenTS, skip func(*core.GenTS) bo
 			if op.Expect != "ok" {
 				injected++
 			}
+			if op.Kind == "R" {
+				c.Dist("histories:" + h.lvl + ":with-reset")
+			}
 		}
 		c.Count(caseID, injected > 0)
-		c.Dist("histories:" + h.t.K)
+		c.Dist("histories:" + h.lvl + ":" + h.t.K)
 		check := func(engine, obs string) (calls []string, final string, ok bool) {
 			f := strings.SplitN(obs, "\t", 2)
 			if f[0] != "ops" || len(f) != 2 {
@@ -1133,9 +1247,14 @@ func c13Histories(c *core.Ctx, compiled []*core.GenTS, skip func(*core.GenTS) bo
 				if j >= len(calls) {
 					break
 				}
+				if op.Note == "before-reset" {
+					continue // the first history of a reset case: whatever it does, the Reset makes the builder new
+				}
 				got := class(calls[j])
 				want := "ok"
-				if op.Expect != "ok" {
+				if op.Expect == "reset" {
+					want = "reset"
+				} else if op.Expect != "ok" {
 					want = "refused"
 				}
 				if got != want {
@@ -1176,7 +1295,7 @@ func c13Histories(c *core.Ctx, compiled []*core.GenTS, skip func(*core.GenTS) bo
 	var idx []int
 	for i, h := range hs {
 		if h.plain {
-			lines = append(lines, core.TasmLine("bindnode", h.t, h.ops), core.TasmLine("gen", h.t, h.ops))
+			lines = append(lines, core.TasmLineLvl("bindnode", h.lvl, h.t, h.ops), core.TasmLineLvl("gen", h.lvl, h.t, h.ops))
 			idx = append(idx, i)
 		}
 	}
@@ -1186,15 +1305,15 @@ func c13Histories(c *core.Ctx, compiled []*core.GenTS, skip func(*core.GenTS) bo
 	}
 	for n, i := range idx {
 		h := hs[i]
-		c.Dist("histories-on-typed-assembler-model")
+		c.Dist("histories-on-typed-assembler-model:" + h.lvl)
 		for e, eng := range []struct{ name, obs string }{{"bindnode", h.bind}, {"gen", answers[i]}} {
 			f := strings.SplitN(eng.obs, "\t", 2)
 			if f[0] != "ops" || len(f) != 2 {
 				continue // a panic outside the calls: reported above
 			}
-			if d := core.TasmCompare(f[1], model[2*n+e], eng.name == "bindnode"); d != "" {
+			if d := core.TasmCompare(f[1], model[2*n+e], eng.name == "bindnode" && h.lvl == "type"); d != "" {
 				report("C13/corr-typed-assembler", core.Replay{Kind: "correspondence", Case: lines[2*n+e], Impl: eng.obs, Model: model[2*n+e],
-					Detail: d + "; engine " + eng.name + "; history " + fmt.Sprintf("c13 %s TYPE %s type ops 0 OPS %s", h.g.Tokens(), h.t.Name, h.payload)})
+					Detail: d + "; engine " + eng.name + "; history " + fmt.Sprintf("c13 %s TYPE %s %s ops 0 OPS %s", h.g.Tokens(), h.t.Name, h.lvl, h.payload)})
 			}
 		}
 	}
@@ -1263,24 +1382,31 @@ func (h *c13OpsCase) judge(genObs, bindObs string, report func(string, core.Repl
 		report("C13/history-panics", core.Replay{Kind: "oracle", Case: h.line, Impl: "gen=" + genObs + "  bindnode=" + bindObs})
 		return nil
 	}
-	if h.lvl != "type" || !core.PlainType(h.t) {
+	if !(h.lvl == "type" && core.PlainType(h.t) || h.lvl == "repr" && core.PlainReprType(h.t)) {
 		if d := core.TasmCompare(go_, bo, false); d != "" {
 			report("C13/engines-disagree-on-call-history", core.Replay{Kind: "oracle", Case: h.line, Impl: "gen=" + genObs + "  bindnode=" + bindObs, Detail: d})
 		}
 		return nil
 	}
-	model, err := core.RunDriver([]string{core.TasmLine("ideal", h.t, h.ops), core.TasmLine("bindnode", h.t, h.ops), core.TasmLine("gen", h.t, h.ops)})
+	model, err := core.RunDriver([]string{core.TasmLineLvl("ideal", h.lvl, h.t, h.ops), core.TasmLineLvl("bindnode", h.lvl, h.t, h.ops), core.TasmLineLvl("gen", h.lvl, h.t, h.ops)})
 	if err != nil {
 		return err
 	}
+	// where the models of the two engines part for a reason that is no finding (a key that cannot get a value: refused at the
+	// key or at the value; BeginMap on a representation that is no map) the contract's machine is no oracle any more
+	part := core.TasmEnginesPart(model[1], model[2], model[0])
 	for _, e := range []struct {
 		name, obs, model string
 		exact            bool
-	}{{"bindnode", bo, model[1], true}, {"gen", go_, model[2], false}} {
+	}{{"bindnode", bo, model[1], h.lvl == "type"}, {"gen", go_, model[2], false}} {
 		if d := core.TasmCompare(e.obs, e.model, e.exact); d != "" {
-			report("C13/corr-typed-assembler", core.Replay{Kind: "correspondence", Case: core.TasmLine(e.name, h.t, h.ops), Impl: e.obs, Model: e.model, Detail: d + "; engine " + e.name + "; history " + h.line})
+			report("C13/corr-typed-assembler", core.Replay{Kind: "correspondence", Case: core.TasmLineLvl(e.name, h.lvl, h.t, h.ops), Impl: e.obs, Model: e.model, Detail: d + "; engine " + e.name + "; history " + h.line})
 		}
-		if d := core.TasmCompare(e.obs, model[0], false); d != "" {
+		obs, ideal := e.obs, model[0]
+		if part >= 0 {
+			obs, ideal = core.TasmUpTo(obs, part), core.TasmUpTo(ideal, part)
+		}
+		if d := core.TasmCompare(obs, ideal, false); d != "" {
 			sig := "C13/history-" + e.name + "-call-outcome"
 			if e.name == "gen" && strings.Contains(e.model, "unclaimed") {
 				sig = "C13/gen-refused-assignnode-wedges-builder"
